@@ -35,7 +35,7 @@ def random_quat(rng):
     return v / np.linalg.norm(v)
 
 
-def run_grid(ctx, rng, spec, molname, nframes, outliers, d, use_pt=False):
+def run_grid(ctx, rng, spec, molname, nframes, outliers, d, use_pt=False, shift=(0.0, 0.0, 0.0)):
     import MDAnalysis as mda
     from MDAnalysis.coordinates.memory import MemoryReader
     from molgri.space.fullgrid import FullGrid
@@ -73,6 +73,7 @@ def run_grid(ctx, rng, spec, molname, nframes, outliers, d, use_pt=False):
         frames = np.zeros((len(placements), 1 + len(ref), 3), dtype=np.float32)
         for k, (p, q) in enumerate(placements):
             frames[k, 1:] = (quat_to_matrix(q) @ ref.T).T + p
+        frames += np.array(shift, dtype=np.float32)          # the whole system somewhere in the box: molecule 1 is not at the origin
         merged = mda.Merge(m1.atoms, m2.atoms)
         u = mda.Universe(merged._topology, frames, format=MemoryReader)
     recs = []
@@ -121,7 +122,8 @@ def run(ctx: Ctx):
     mols = list(MOL2)
     for gi, spec in enumerate(grids):
         for mi, molname in enumerate(mols if thorough else [mols[gi % len(mols)]]):
-            recs += run_grid(ctx, rng, spec, molname, nframes, outliers=bool((gi + mi) % 2), d=d)
+            shift = [(0.0, 0.0, 0.0), (0.9, -0.6, 0.4), (15.0, 15.0, 15.0)][(gi + mi) % 3]
+            recs += run_grid(ctx, rng, spec, molname, nframes, outliers=bool((gi + mi) % 2), d=d, shift=shift)
     # the grid's own pseudotrajectory (real Pseudotrajectory class), every row
     recs += run_grid(ctx, rng, ("5", "7", "[0.2, 0.35]"), "generic4", 0, outliers=False, d=d, use_pt=True)
     if thorough:
